@@ -35,7 +35,10 @@ RULE = ("case = random history (<= 12 ops quick / <= 40 thorough) over up to 3 s
         "start position) and is read back from exactly there; checkpoints followed by later data are not readable by torch.load itself and not read), "
         "load (compatible and incompatible), autoload (same and other state type), reinitialise; after every op all parameter tokens, "
         "identity classes, unitary dicts, metadata contents, torch.load of every file and the error kind are compared exactly with the "
-        "model. non-trivial iff some load/autoload succeeds from a file written after a randomisation/training of its source; "
+        "model. ARGUMENT FORMS (seed `af` of every op with options): num_visible / num_hidden / num_aux, epochs / pos_batch_size / k of fit and the "
+        "ModelSaver period (a divisor of the epoch) as Python int / numpy.int64 / int32 / intp / uint8 / 0-d numpy array / 0-d torch tensor; gpu, "
+        "save_initial, metadata_only as bool / int / numpy.bool_ / numpy comparison result / 0-d numpy array / 0-d torch tensor; ModelSaver and "
+        "autoload by keyword or positionally. non-trivial iff some load/autoload succeeds from a file written after a randomisation/training of its source; "
         "distinct by hash of the plan")
 
 MD_KINDS = {
@@ -181,7 +184,7 @@ def gen_plan(rng, maxlen):
                 states[s] = saved[p]
         else:
             plan.append({"t": "reinit", "slot": slot})
-    return plan[: maxlen + 4]
+    return so.add_forms(plan[: maxlen + 4], rng)
 
 
 def file_hash(p):
@@ -387,6 +390,15 @@ def one_case(ctx, case):
 
 
 def fixed_cases():
+    """hand-written histories that every run replays (see `_fixed_cases`), each with argument forms from a stream seeded by its tseed"""
+    import random
+
+    for case in _fixed_cases():
+        so.add_forms(case["plan"], random.Random(case["tseed"]))
+        yield case
+
+
+def _fixed_cases():
     """hand-written histories that every run replays: F5 scenario (ModelSaver reusing one dict on a state with a unitary
     dict), cross-type autoloads, partial load, reserved names"""
     c = lambda **k: k  # noqa: E731
